@@ -24,12 +24,15 @@ TOutcome ==
      ELSE IF sc.panic.value = "abort" THEN ~Cur.ok /\ Cur.handle_calls = 0 /\ Cur.aborted
      ELSE IF Recovers(sc)
      THEN /\ Cur.handle_calls = 1 /\ Cur.seen = <<sc.panic.value>>
-          /\ ~Cur.ok /\ Cur.code = 15 /\ Cur.got = GotBefore(sc)
+          /\ ~Cur.ok /\ Cur.got = GotBefore(sc)
+          \* ("int": the function answers with a plain Go error -- unknown, with its text, like any uncoded handler error)
+          /\ Cur.code = (IF sc.panic.value = "int" THEN 2 ELSE 15)
           \* ("bytes": the function's message is not valid UTF-8 -- how it is made presentable is the protocol's business)
-          /\ (sc.panic.value # "bytes" => Cur.msg = "recovered")
+          /\ (sc.panic.value \notin {"bytes", "int"} => Cur.msg = "recovered")
+          /\ (sc.panic.value = "int" => Cur.msg = "recovered plainly")
           \* "the client receives the error that function returned": with its metadata, and next to the trailers the
           \* handler had set before it panicked
-          /\ Cur.recmeta = "m" /\ (sc.kind \in {"server", "bidi"} => Cur.rectrl = "t")
+          /\ (sc.panic.value # "int" => Cur.recmeta = "m") /\ (sc.kind \in {"server", "bidi"} => Cur.rectrl = "t")
      ELSE ~Cur.ok /\ Cur.handle_calls = 0
 Normal == TReset \/ ((TApply \/ TObs \/ TOutcome) /\ Consume /\ UNCHANGED failed)
 TraceNext == \/ (~failed /\ Normal)
